@@ -17,6 +17,7 @@ def parseOp : List String → Option Op
   | ["ack"] => some Op.ack
   | ["cccd", b] => (parseBool b).map Op.cccd
   | ["wheel"] => some Op.wheel
+  | ["reconnect"] => some Op.reconnect
   | _ => none
 
 def config : String → Option (List UInt8)
